@@ -231,8 +231,11 @@ class TopK(FrequencySketch[T]):
         if other._k != self._k:
             raise ValueError(f"Cannot merge TopK with k={other._k} into k={self._k}")
 
-        # Capture items already tracked BEFORE merging (for correct total calculation)
-        items_already_tracked = set(self._counters.keys())
+        # The merged sketch describes the concatenated stream, so its total is
+        # simply the sum of both totals.  (add() below also bumps _total_count,
+        # including for items of this sketch that were evicted earlier in the
+        # same merge and are re-added, so the total is restored afterwards.)
+        combined_total = self._total_count + other._total_count
 
         # Simple merge: add all items from other
         # This isn't optimal but provides correctness
@@ -250,11 +253,7 @@ class TopK(FrequencySketch[T]):
                 if counter.item in self._counters:
                     self._counters[counter.item].error += counter.error
 
-        # Update total: add other's total, subtract what add() already added
-        # (add() increments _total_count for items that weren't already tracked)
-        self._total_count += other._total_count - sum(
-            c.count for c in other._counters.values() if c.item not in items_already_tracked
-        )
+        self._total_count = combined_total
 
     @property
     def memory_bytes(self) -> int:
